@@ -61,6 +61,11 @@ def cases(tier):
             if matrix and not thorough:
                 continue
             out.append({"id": f"EXPR/{lid}/{a},{b}", "world": w, "op": "EXPR", "operands": [a, b]})
+    # user expression written as a 3-argument kron over three operands of mixed type (factor k <-> operand k)
+    for lid, w in _layouts(tier):
+        if lid in ("own-V", "ps[p1,c0,p0]-V", "ps[p0,c0]+ps[f1,p1]-V") or (thorough and lid.endswith("-M")):
+            for o in (("p0", "p1", "c0"), ("c0", "p0", "p1"), ("p1", "c0", "p0")):
+                out.append({"id": f"EXPR3/{lid}/{','.join(o)}", "world": w, "op": "EXPR3", "operands": list(o)})
     # CSWAP over three envelopes
     S3 = cm.subs(3, 0, 2, 2)
     comp3 = [["e0", "e1", "e2"]]
@@ -114,7 +119,14 @@ def scenario(B, case):
     W = World(B, case["world"])
     ops_ = [W.sub(n) for n in case["operands"]]
     g = case["op"]
-    if g == "EXPR":
+    if g == "EXPR3":
+        Ms = [B.operator(f"O{k}", int(o.dimensions)) for k, o in enumerate(ops_)]
+        types = tuple("Polarization" if n.startswith("p") else ("CustomState" if n.startswith("c") else "Fock")
+                      for n in case["operands"])
+        ctx = {"A": lambda d: Ms[0], "B": lambda d: Ms[1], "C": lambda d: Ms[2]}
+        op = Operation(CompositeOperationType.Expression, expr=("kron", "A", "B", "C"), state_types=types, context=ctx)
+        Oref = ref.kron(ref.kron(B.np(Ms[0]), B.np(Ms[1])), B.np(Ms[2]))
+    elif g == "EXPR":
         dims = [int(o.dimensions) for o in ops_]
         D = dims[0] * dims[1]
         M = B.operator("O", D)
